@@ -54,9 +54,12 @@ Theorem C47_kv_store_refines : forall ops s kv ko,
 Proof. exact history_refines. Qed.
 Print Assumptions C47_kv_store_refines.
 
-(* every reader of the agreeing set (point lookups, per-address / per-table range scans, prefix
-   scans with cursor / limit / byte budget / exclusions, "latest row <= round", tx tail, round
-   params, state proof contexts), every argument, every history *)
+(* every reader of the agreeing set ([agree_kind]: point lookups, per-address / per-table range scans,
+   prefix scans with cursor / limit / byte budget / exclusions and pre-filled result maps, "latest row
+   <= round", expired online accounts (walk over the balance index), tx tail, round params, state
+   proof contexts), every argument, every history.  Not in the set: LookupLimitedResources,
+   AccountsOnlineTop, the catchpoint stubs (recorded findings), and OnlineAccountsAll /
+   LookupOnlineHistory, which are covered by C47_kv_refines_spec_partial *)
 Theorem C47_kv_refines_spec : forall ops s kv ko q,
   run_ops spec_init kv_init kv_init ops = Some (s, kv, ko) ->
   query_ok q = true -> agree_kind q = true ->
